@@ -41,6 +41,20 @@ def run(ck):
         det_cases.append({"k": "det", "id": cid, "rule": text, "docs": docs, "sw": SWS, "reps": reps, "threads": 16 if thorough else 8})
         # the same rule through the model (all hash orders enumerated) to classify order dependence
         rule_cases.append({"k": "rule", "id": cid, "rule": text, "docs": docs, "sw": SWS})
+    # coverage families in which the optimiser's maps hold several keys (ties in every sort key,
+    # merged nested blocks, matrices): the output order must not vary from call to call
+    import covfam
+    for fam, det, fdocs, extra in covfam.all_cases():
+        if fam not in ("sort_ties", "sort_comparators", "nested_and_merge", "nested_matrix", "matrix_duplicate_fields", "wide_matrix"):
+            continue
+        if fam == "wide_matrix" and len(det.get("A", [])) > 140:
+            continue
+        docs = [D(d) for d in fdocs[:6]]
+        cid = ck.new_id()
+        text = rule_text(det, extra=extra)
+        det_cases.append({"k": "det", "id": cid, "rule": text, "docs": docs, "sw": SWS, "reps": max(reps, 10), "threads": 4})
+        rule_cases.append({"k": "rule", "id": cid, "rule": text, "docs": docs, "sw": SWS})
+        ck.count("family:" + fam)
     wit = rulebase.known_witnesses("C12")
     wcases = []
     for entry, w in wit:
